@@ -14,8 +14,8 @@ package main
 import (
 	"fmt"
 	"os"
-	"regexp"
 	"path/filepath"
+	"regexp"
 	"sort"
 	"strings"
 	"time"
@@ -40,14 +40,15 @@ type c03Problem struct {
 }
 
 type c03Eval struct {
-	Problems     []c03Problem
-	Logs         map[string]*fileLog
-	Changed      []string
-	Abnormal     string
-	FilesChecked int
-	Reloads      map[string]int // file -> number of save-and-load-again points needed
-	Undecided    []string       // not consistent in one piece, and too many states to try reload points
-	ModeOnly     []string
+	Problems      []c03Problem
+	Logs          map[string]*fileLog
+	Changed       []string
+	Abnormal      string
+	FilesChecked  int
+	Reloads       map[string]int // file -> number of save-and-load-again points needed
+	Undecided     []string       // not consistent in one piece, and too many states to try reload points
+	UndecidedSort []string       // not consistent in one piece, and the log goes on after a sort
+	ModeOnly      []string
 }
 
 const c03MaxReloads = 2
@@ -159,6 +160,18 @@ func c03Evaluate(ctx *Ctx, root string, cfg wrConfig, before, after map[string]f
 		}
 		if est > 3e5 || len(p.entries) > 40 {
 			ev.Undecided = append(ev.Undecided, p.rel)
+			continue
+		}
+		// a file that was sorted, saved and then examined again: the intermediate file is some
+		// permutation, which the search with reload points does not enumerate
+		sortThenMore := false
+		for i, e := range p.entries {
+			if e.Kind == 'S' && i+1 < len(p.entries) {
+				sortThenMore = true
+			}
+		}
+		if sortThenMore {
+			ev.UndecidedSort = append(ev.UndecidedSort, p.rel)
 			continue
 		}
 		for rl := 1; rl <= c03MaxReloads && !solved; rl++ {
@@ -490,6 +503,7 @@ func c03Whole(ctx *Ctx, res *Result, rng *Rng) {
 		res.Count("W.files_changed", len(j.ev.Changed))
 		res.Count("W.mode_only_changes", len(j.ev.ModeOnly))
 		res.Count("W.files_undecided_too_many_states", len(j.ev.Undecided))
+		res.Count("W.files_undecided_examined_again_after_sort", len(j.ev.UndecidedSort))
 		for rel, rl := range j.ev.Reloads {
 			res.Count(fmt.Sprintf("W.files_needing_%d_reloads", rl), 1)
 			if len(reloadExamples) < 6 {
